@@ -18,6 +18,11 @@ def toHexPad (n : Nat) (width : Nat) : String :=
     | fuel + 1 => go fuel (n / 16) (hexDigitChar (n % 16) :: acc)
   String.ofList (go width n [])
 
+structure LastTx where
+  t : TxIn
+  code : Nat
+  kvs : List (String × String)
+
 structure DState where
   dump : Dump := {}
   committed : Option State := none   -- Go state at the previous commit
@@ -28,6 +33,7 @@ structure DState where
   block : Nat := 0
   touched : List String := []        -- dump keys the last modelled plan touched
   oracle : List (OQ × Int) := []
+  lastTx : Option LastTx := none
   nCommits : Nat := 0
   nOps : Nat := 0
   nModelled : Nat := 0
@@ -42,16 +48,85 @@ def kv (line : String) : List (String × String) :=
 
 def kvGet (l : List (String × String)) (k : String) : String := (l.lookup k).getD ""
 
-partial def readDelta (h : IO.FS.Stream) (d : Dump) (keys : List String) : IO (Dump × List String) := do
+structure Change where
+  key : String
+  old : Option String
+  new : Option String
+
+partial def readDelta (h : IO.FS.Stream) (d : Dump) (chs : List Change) : IO (Dump × List Change) := do
   let line ← h.getLine
-  if line.isEmpty then return (d, keys)
+  if line.isEmpty then return (d, chs)
   let l := chomp line
-  if l == "." then return (d, keys)
+  if l == "." then return (d, chs)
   let key := match l.toList with
     | '=' :: rest => ((String.ofList rest).splitOn "\t").headD ""
     | '-' :: rest => String.ofList rest
     | _ => ""
-  readDelta h (d.applyLine l) (key :: keys)
+  let d' := d.applyLine l
+  readDelta h d' ({ key := key, old := d.get? key, new := d'.get? key } :: chs)
+
+/-- The `value` field of a dump entry that carries an amount (for monotonicity checks). -/
+def amountOf (key : String) (v : Option String) : Int :=
+  match v with
+  | none => 0
+  | some s =>
+    match (words key).headD "" with
+    | "b" => intD s
+    | "wl" => (s.splitOn "+").foldl (fun acc x => acc + intD x) 0
+    | "st" => match words s with | [_, val, _] => intD val | _ => 0
+    | _ => 0
+
+/-- Monitors evaluated on the node's own observations after every DeliverTx (C03, C04, C05). -/
+def txMonitors (P : Params) (lt : LastTx) (chs : List Change) : List String := Id.run do
+  let t := lt.t
+  let mut out : List String := []
+  let senderHex := toHexPad t.sender 40
+  let issuerHex := kvGet lt.kvs "tx.from"            -- for RedeemCheck: the check issuer
+  let com := t.comCoin
+  if !t.dec then
+    for c in chs do
+      if c.key != "app rewards" || c.old != c.new then out := s!"VIOL C03 undecodable-tx-changed {c.key}" :: out
+    return out
+  -- nonce rules
+  for c in chs do
+    match words c.key with
+    | ["n", a] =>
+      let o := natD (c.old.getD "0"); let n := natD (c.new.getD "0")
+      if lt.code != 0 then out := s!"VIOL C03 nonce-changed-by-rejected-tx {c.key} {o}->{n}" :: out
+      else if a != senderHex then out := s!"VIOL C04 foreign-nonce-changed {c.key} {o}->{n}" :: out
+      else
+        if n != o + 1 then out := s!"VIOL C03 nonce-not-incremented-by-one {c.key} {o}->{n}" :: out
+        if n != t.nonce then out := s!"VIOL C04 accepted-nonce-mismatch tx.nonce={t.nonce} stored={o}->{n}" :: out
+    | _ => pure ()
+  if lt.code == 0 then
+    if t.chain != P.chain then out := s!"VIOL C04 accepted-wrong-chain {t.chain}" :: out
+    if !(chs.any (fun c => c.key == s!"n {senderHex}")) then out := s!"VIOL C03 accepted-tx-did-not-bump-nonce type={t.typ}" :: out
+  -- debits
+  for c in chs do
+    match words c.key with
+    | ["b", a, _] =>
+      if amountOf c.key c.new < amountOf c.key c.old && a != senderHex && !(t.typ == 9 && a == issuerHex) then
+        out := s!"VIOL C05 unauthorised-debit {c.key} {c.old.getD "0"}->{c.new.getD "0"} type={t.typ} sender={senderHex}" :: out
+    | ["st", _, a, _] =>
+      if amountOf c.key c.new < amountOf c.key c.old && a != senderHex then
+        out := s!"VIOL C05 foreign-stake-reduced {c.key} type={t.typ} sender={senderHex}" :: out
+    | ["wl", _, a, _] =>
+      if amountOf c.key c.new < amountOf c.key c.old && a != senderHex then
+        out := s!"VIOL C05 foreign-waitlist-reduced {c.key} type={t.typ} sender={senderHex}" :: out
+    | _ => pure ()
+  -- failure frame
+  if lt.code != 0 then
+    let payer := if t.typ == 9 && issuerHex != "" then issuerHex else senderHex
+    for c in chs do
+      if c.old != c.new then
+        let ok := match words c.key with
+          | ["b", a, cc] => natD cc == com && (a == payer || amountOf c.key c.new ≥ amountOf c.key c.old)
+          | ["c", cc] => natD cc == com
+          | ["p", c0, c1] => (natD c0 == com && natD c1 == 0) || (natD c0 == 0 && natD c1 == com)
+          | ["app", "rewards"] => true
+          | _ => false
+        if !ok then out := s!"VIOL C03 rejected-tx-changed {c.key} {c.old.getD "-"}->{c.new.getD "-"} type={t.typ} code={lt.code}" :: out
+  return out
 
 def fmtViol (v : Coin × Int × Int) : String := s!"coin={v.1} volume={v.2.1} holdings={v.2.2}"
 
@@ -151,7 +226,8 @@ partial def loop (h : IO.FS.Stream) (out : IO.FS.Stream) (ds : DState) : IO Unit
     out.flush
     loop h out { ds with params := p }
   | "S" :: kind :: _ =>
-    let (d, keys) ← readDelta h ds.dump []
+    let (d, chs) ← readDelta h ds.dump []
+    let keys := chs.map (·.key)
     let mut ds := { ds with dump := d, nOps := ds.nOps + 1 }
     if kind == "commit" || kind == "init" || kind == "restart" then
       let st := State.ofDump d
@@ -176,6 +252,12 @@ partial def loop (h : IO.FS.Stream) (out : IO.FS.Stream) (ds : DState) : IO Unit
         else ds := { ds with model := some (mergeProjection m d), staleOther := true }
       | none => pure ()
     else if kind == "tx" then
+      match ds.lastTx with
+      | some lt =>
+        for v in txMonitors ds.params lt chs do
+          out.putStrLn v
+        ds := { ds with lastTx := none }
+      | none => pure ()
       match ds.model with
       | some m =>
         if ds.pendingMerge then
@@ -196,7 +278,7 @@ partial def loop (h : IO.FS.Stream) (out : IO.FS.Stream) (ds : DState) : IO Unit
   | "D" :: _ =>
     let a := kv l
     let goCode := natD (kvGet a "code")
-    let mut ds := { ds with nOps := ds.nOps + 1 }
+    let mut ds := { ds with nOps := ds.nOps + 1, lastTx := some { t := TxIn.ofKV a, code := goCode, kvs := a } }
     match ds.model with
     | none => ds := { ds with nStaleSkipped := ds.nStaleSkipped + 1 }
     | some m =>
